@@ -4,6 +4,7 @@ import (
 	"fmt"
 	"go/token"
 	"go/types"
+	"strings"
 
 	"golang.org/x/tools/go/ssa"
 )
@@ -60,26 +61,82 @@ func runC18(c *Ctx) {
 	oblB := newOblSet(c, "R18b")
 	oblC := newOblSet(c, "R18c")
 	oblD := newOblSet(c, "R18d")
+	oblE := newOblSet(c, "R18e")
 	defer obl.flush()
 	defer oblB.flush()
 	defer oblC.flush()
 	defer oblD.flush()
+	defer oblE.flush()
 
-	// result cells: the cells loaded by the final return
-	var resCell, flagCell ssa.Value
-	for _, b := range fn.Blocks {
-		if ret, ok := b.Instrs[len(b.Instrs)-1].(*ssa.Return); ok && len(ret.Results) == 3 {
-			if cell := loadOfCell(ret.Results[0]); cell != nil {
-				resCell = cell
-			}
-			if cell := loadOfCell(ret.Results[1]); cell != nil {
-				flagCell = cell
+	// The result slice and the failure flag, in whichever form the function keeps them: local cells (captured by a
+	// literal) or plain SSA values merged by phis. A value set is grown backwards from the returned values.
+	type valueSet struct {
+		vals  map[ssa.Value]bool
+		cells map[ssa.Value]bool
+	}
+	grow := func(idx int) *valueSet {
+		vs := &valueSet{vals: map[ssa.Value]bool{}, cells: map[ssa.Value]bool{}}
+		var work []ssa.Value
+		for _, b := range fn.Blocks {
+			if ret, ok := b.Instrs[len(b.Instrs)-1].(*ssa.Return); ok && idx < len(ret.Results) && !isNilConst(ret.Results[idx]) {
+				work = append(work, ret.Results[idx])
 			}
 		}
+		for len(work) > 0 {
+			v := work[len(work)-1]
+			work = work[:len(work)-1]
+			if v == nil || vs.vals[v] {
+				continue
+			}
+			vs.vals[v] = true
+			switch x := v.(type) {
+			case *ssa.Phi:
+				work = append(work, x.Edges...)
+			case *ssa.UnOp:
+				if cell := loadOfCell(x); cell != nil && !vs.cells[cell] {
+					vs.cells[cell] = true
+					for _, f := range withLiterals(fn) {
+						for _, b := range f.Blocks {
+							for _, ins := range b.Instrs {
+								if st, ok := ins.(*ssa.Store); ok && cellIdentity(st.Addr) == cell {
+									work = append(work, st.Val)
+								}
+							}
+						}
+					}
+				}
+			case *ssa.Call:
+				if bi, ok := x.Call.Value.(*ssa.Builtin); ok && bi.Name() == "append" {
+					work = append(work, x.Call.Args[0])
+				}
+			case *ssa.Slice:
+				work = append(work, x.X)
+			}
+		}
+		return vs
 	}
-	if resCell == nil || flagCell == nil {
-		obl.undecided("ProcessBulk:result-cells", fn.Pos(), "ProcessBulk does not return (a load of a local result slice, a load of a local flag, …): outside the accepted shape")
+	res := grow(0)
+	flag := grow(1)
+	inSet := func(vs *valueSet, v ssa.Value) bool {
+		if vs.vals[v] {
+			return true
+		}
+		if cell := loadOfCell(v); cell != nil && vs.cells[cell] {
+			return true
+		}
+		return false
+	}
+	if len(res.vals) == 0 || len(flag.vals) == 0 {
+		obl.undecided("ProcessBulk:results", fn.Pos(), "ProcessBulk does not return a result slice and a failure flag")
 		return
+	}
+	isAppend := func(ins ssa.Instruction) bool {
+		call, ok := ins.(*ssa.Call)
+		if !ok {
+			return false
+		}
+		bi, ok := call.Call.Value.(*ssa.Builtin)
+		return ok && bi.Name() == "append" && inSet(res, call.Call.Args[0]) && (res.vals[call] || storedIntoCells(call, res.cells))
 	}
 	// the loop: range over the parameter `bulk`
 	var bulkParam *ssa.Parameter
@@ -93,7 +150,6 @@ func runC18(c *Ctx) {
 	for _, b := range fn.Blocks {
 		for _, ins := range b.Instrs {
 			if ia, ok := ins.(*ssa.IndexAddr); ok && bulkParam != nil && ia.X == ssa.Value(bulkParam) {
-				// index = phi + 1 with phi in a dominating block
 				if bo, ok := ia.Index.(*ssa.BinOp); ok && bo.Op == token.ADD {
 					if p, ok := bo.X.(*ssa.Phi); ok {
 						if one, ok := constInt(bo.Y); ok && one == 1 {
@@ -115,27 +171,22 @@ func runC18(c *Ctx) {
 			okPhi = true
 		}
 	}
-	nLoopHeaders := 0
-	for _, b := range fn.Blocks {
-		for _, ins := range b.Instrs {
-			if p, ok := ins.(*ssa.Phi); ok && p.Comment == "rangeindex" {
-				nLoopHeaders++
-			}
-		}
-	}
 	if okPhi && idxPhi.Comment == "rangeindex" {
 		oblC.expect(kRange, header.Instrs[0].Pos(), "range loop over the bulk parameter")
 	} else {
 		oblC.violate(kRange, fn.Pos(), "the loop over bulk is not a plain range loop", nil)
 	}
-	// no go statement; backend calls are direct
+	// no go statement; backend calls are direct and inside the loop
 	var lParam *ssa.Parameter
 	for _, p := range fn.Params {
 		if isNamed(p.Type(), modPath+"/internal/api/backend", "Ledger") {
 			lParam = p
 		}
 	}
-	nBackend := 0
+	isBackend := func(cc *ssa.CallCommon) bool {
+		return lParam != nil && cc.IsInvoke() && cc.Value == ssa.Value(lParam)
+	}
+	var backendCalls []*ssa.Call
 	kGo := "ProcessBulk:no-concurrency"
 	oblC.expect(kGo, fn.Pos(), "no go statement in ProcessBulk or its literals; backend calls are plain calls")
 	for _, f := range withLiterals(fn) {
@@ -145,14 +196,13 @@ func runC18(c *Ctx) {
 				case *ssa.Go:
 					oblC.violate(kGo, x.Pos(), "a go statement in the bulk processor: elements are no longer executed strictly in order", nil)
 				case *ssa.Defer:
-					if lParam != nil && x.Call.IsInvoke() && x.Call.Value == ssa.Value(lParam) {
+					if isBackend(&x.Call) {
 						oblC.violate(kGo, x.Pos(), "a backend call is deferred: it runs after the following elements", nil)
 					}
 				case *ssa.Call:
-					if lParam != nil && x.Call.IsInvoke() && x.Call.Value == ssa.Value(lParam) {
-						nBackend++
-						// must be inside the loop (dominated by the header)
-						if !header.Dominates(x.Block()) {
+					if isBackend(&x.Call) {
+						backendCalls = append(backendCalls, x)
+						if f != fn || !header.Dominates(x.Block()) {
 							oblC.violate(kGo, x.Pos(), "a backend call outside the element loop", nil)
 						}
 					}
@@ -160,110 +210,136 @@ func runC18(c *Ctx) {
 			}
 		}
 	}
-	if nBackend < 4 {
-		oblC.undecided("floor:backend-calls", fn.Pos(), fmt.Sprintf("expected the four backend write calls in ProcessBulk, found %d", nBackend))
+	if len(backendCalls) < 4 {
+		oblC.undecided("floor:backend-calls", fn.Pos(), fmt.Sprintf("expected the four backend write calls in ProcessBulk, found %d", len(backendCalls)))
 	}
-
-	// the failure literal(s): append to result cell and store true into the flag cell
-	isAppendStore := func(ins ssa.Instruction) bool {
-		st, ok := ins.(*ssa.Store)
-		if !ok || cellIdentity(st.Addr) != resCell {
-			return false
-		}
-		call, ok := st.Val.(*ssa.Call)
-		if !ok {
-			return false
-		}
-		bi, ok := call.Call.Value.(*ssa.Builtin)
-		return ok && bi.Name() == "append" && loadOfCell(call.Call.Args[0]) == resCell
-	}
-	isFlagStore := func(ins ssa.Instruction) (bool, bool) {
-		st, ok := ins.(*ssa.Store)
-		if !ok || cellIdentity(st.Addr) != flagCell {
-			return false, false
-		}
-		b, isConst := constBool(st.Val)
-		return true, isConst && b
-	}
-	failureLits := map[*ssa.Function]bool{}
-	for _, lit := range fn.AnonFuncs {
-		app := false
-		for _, b := range lit.Blocks {
-			for _, ins := range b.Instrs {
-				if isAppendStore(ins) {
-					app = true
-				}
-			}
-		}
-		if !app {
-			continue
-		}
-		// every path: exactly one append and the flag set to true
-		key := fnName(lit) + ":one-append-and-flag-set"
-		oblD.expect(key, lit.Pos(), "the failure literal appends exactly one result and sets the failure flag on every path")
-		pr := &PathRule{
-			Step: func(pc *PathCtx, s uint64, ins ssa.Instruction) uint64 {
-				if isAppendStore(ins) {
-					if s&3 < 2 {
-						s++
-					}
-				}
-				if isF, isTrue := isFlagStore(ins); isF {
-					if isTrue {
-						s |= 4
-					} else {
-						s &^= 4
-					}
-				}
-				return s
-			},
-			Exit: func(pc *PathCtx, s uint64, ins ssa.Instruction) {
-				if _, ok := ins.(*ssa.Return); ok {
-					if s&3 != 1 {
-						obl.violate(key, ins.Pos(), fmt.Sprintf("the failure literal appends %d results on a path", s&3), pc.Trail())
-					}
-					if s&4 == 0 {
-						oblD.violate(key, ins.Pos(), "the failure literal returns without setting the failure flag: the response does not signal the failure", pc.Trail())
-					}
-				}
-			},
-		}
-		c.RunPaths(lit, 0, pr)
-		failureLits[lit] = true
-	}
-	if len(failureLits) == 0 {
-		oblD.undecided("floor:failure-literal", fn.Pos(), "no literal of ProcessBulk appends a failure result")
-	}
-	// any other store to the flag cell must be the initialisation to false before the loop
+	// the flag is never reset once the loop runs
 	for _, f := range withLiterals(fn) {
 		for _, b := range f.Blocks {
 			for _, ins := range b.Instrs {
-				if isF, isTrue := isFlagStore(ins); isF && !isTrue {
-					if f != fn || header.Dominates(b) {
-						oblD.violate("ProcessBulk:flag-never-reset", ins.Pos(), "the failure flag is reset after it may have been set", nil)
+				if st, ok := ins.(*ssa.Store); ok && flag.cells[cellIdentity(st.Addr)] {
+					if bv, isC := constBool(st.Val); isC && !bv && (f != fn || header.Dominates(b)) {
+						oblD.violate("ProcessBulk:flag-never-reset", st.Pos(), "the failure flag is reset after it may have been set", nil)
 					}
 				}
+			}
+		}
+	}
+	for v := range flag.vals {
+		if phi, ok := v.(*ssa.Phi); ok && header.Dominates(phi.Block()) && phi.Block() != header {
+			for _, e := range phi.Edges {
+				if bv, isC := constBool(e); isC && !bv {
+					oblD.violate("ProcessBulk:flag-never-reset", phi.Pos(), "the failure flag is reset after it may have been set", nil)
+				}
+			}
+		}
+	}
+	oblD.expect("ProcessBulk:flag-never-reset", fn.Pos(), "the failure flag only goes from false to true")
+
+	// error results of the calls whose failure must become a failed element
+	errOf := map[ssa.Value]string{} // error value -> description
+	for _, call := range backendCalls {
+		sig := call.Call.Signature()
+		ei := errResultIdx(sig)
+		if ei < 0 {
+			continue
+		}
+		var ev ssa.Value
+		if sig.Results().Len() == 1 {
+			ev = call
+		} else {
+			for _, r := range *call.Referrers() {
+				if e, ok := r.(*ssa.Extract); ok && e.Index == ei {
+					ev = e
+				}
+			}
+		}
+		name := "backend." + call.Call.Method.Name()
+		if ev == nil || !errorIsUsed(call) {
+			oblE.violate("ProcessBulk:"+name+":failure-becomes-a-failed-element", call.Pos(), "the error of "+name+" is dropped: a failing element is answered as a success", nil)
+			continue
+		}
+		errOf[ev] = name
+		oblE.expect("ProcessBulk:"+name+":failure-becomes-a-failed-element", call.Pos(), "on the error edge of the call the element is answered as failed (failure flag set) before the iteration ends")
+	}
+	for _, b := range fn.Blocks {
+		if !header.Dominates(b) {
+			continue
+		}
+		for _, ins := range b.Instrs {
+			if call, ok := ins.(*ssa.Call); ok && calleeFullName(call) == "encoding/json.Unmarshal" {
+				errOf[call] = "json.Unmarshal"
 			}
 		}
 	}
 
 	// the iteration machine
 	const (
-		cntMask = 3
-		inIter  = 4
-		failed  = 8
-		cont    = 16
+		cntMask   = 3
+		inIter    = 4
+		failed    = 8 // the failure flag was set during this iteration
+		cont      = 16
+		errSeen   = 32
+		errNilCl  = 64  // the merged error variable currently holds nil on this path
+		errSetCl  = 128 // … currently holds a non-nil error on this path
+		errClMask = errNilCl | errSetCl
 	)
 	kOne := "ProcessBulk:exactly-one-result-per-element"
 	kStop := "ProcessBulk:stops-at-first-failure"
 	kRet := "ProcessBulk:returns-the-result-slice"
+	kDec := "ProcessBulk:undecodable-element-is-a-failed-element"
 	obl.expect(kOne, header.Instrs[0].Pos(), "every path through one iteration appends exactly one result")
 	oblB.expect(kStop, header.Instrs[0].Pos(), "after a failing element the loop continues only when continueOnFailure is true")
 	obl.expect(kRet, fn.Pos(), "every return hands out the result slice")
+	oblE.expect(kDec, fn.Pos(), "a decoding error makes the element a failed element")
+	oblD.expect("ProcessBulk:returns-the-failure-flag", fn.Pos(), "every return hands out the failure flag")
 	var contParam *ssa.Parameter
 	for _, p := range fn.Params {
 		if bt, ok := p.Type().Underlying().(*types.Basic); ok && bt.Kind() == types.Bool {
 			contParam = p
+		}
+	}
+	// per error value: known nil / known non-nil on the current path (bits 16.. of the state)
+	errIdx := map[ssa.Value]uint{}
+	for v := range errOf {
+		if len(errIdx) < 20 {
+			errIdx[v] = uint(len(errIdx))
+		}
+	}
+	knownNil := func(v ssa.Value) uint64 {
+		if i, ok := errIdx[v]; ok {
+			return 1 << (16 + 2*i)
+		}
+		return 0
+	}
+	knownSet := func(v ssa.Value) uint64 {
+		if i, ok := errIdx[v]; ok {
+			return 1 << (17 + 2*i)
+		}
+		return 0
+	}
+	const perValueMask = uint64(0xFFFFFFFFFF) << 16
+	var errWhat string
+	endOfIteration := func(pc *PathCtx, s uint64, pos token.Pos, returning bool) {
+		if s&inIter == 0 {
+			return
+		}
+		if s&cntMask != 1 {
+			what := "goes on to the next element"
+			if returning {
+				what = "returns"
+			}
+			obl.violate(kOne, pos, fmt.Sprintf("a path through one iteration of the element loop %s after appending %d results: positions of the results shift (an element is answered twice or not at all)", what, s&cntMask), pc.Trail())
+		}
+		if s&errSeen != 0 && s&failed == 0 {
+			k := kDec
+			if strings.HasPrefix(errWhat, "backend.") {
+				k = "ProcessBulk:" + errWhat + ":failure-becomes-a-failed-element"
+			}
+			oblE.violate(k, pos, "on a path where "+errWhat+" returned an error the element is not answered as failed (the failure flag is not set): the response reports success for an element that failed, and does not stop the bulk", pc.Trail())
+		}
+		if !returning && s&failed != 0 && s&cont == 0 {
+			oblB.violate(kStop, pos, "the loop goes on to the next element after a failure without having tested continueOnFailure", pc.Trail())
 		}
 	}
 	pr := &PathRule{
@@ -277,14 +353,16 @@ func runC18(c *Ctx) {
 			return out
 		},
 		Step: func(pc *PathCtx, s uint64, ins ssa.Instruction) uint64 {
-			if isAppendStore(ins) {
+			if isAppend(ins) {
 				if s&cntMask < 3 {
 					s++
 				}
-				if failureLits[pc.Fn()] {
+				pc.Note("result appended at %s", c.pos(ins.Pos()))
+			}
+			if st, ok := ins.(*ssa.Store); ok && flag.cells[cellIdentity(st.Addr)] {
+				if bv, isC := constBool(st.Val); isC && bv {
 					s |= failed
 				}
-				pc.Note("result appended at %s", c.pos(ins.Pos()))
 			}
 			return s
 		},
@@ -298,21 +376,79 @@ func runC18(c *Ctx) {
 						s |= cont
 					}
 				}
+				if what, ok := errOf[f.X]; ok && isNilConst(f.Y) {
+					if !f.Eq {
+						s |= errSeen | knownSet(f.X)
+						errWhat = what
+					} else {
+						s |= knownNil(f.X)
+					}
+				}
 			}
 			to := from.Succs[si]
+			// value form of the error variable: a test of an error-typed phi is decided by what flowed into it on
+			// this path (nil constant / a value known to be a non-nil error); contradictory edges are infeasible
+			for _, f := range pc.edgeFacts(from, si) {
+				if phi, ok := f.X.(*ssa.Phi); ok && isErrorType(phi.Type()) && isNilConst(f.Y) {
+					if f.Eq && s&errSetCl != 0 {
+						return s, false
+					}
+					if !f.Eq && s&errNilCl != 0 {
+						return s, false
+					}
+				}
+			}
+			for _, ins := range to.Instrs {
+				phi, ok := ins.(*ssa.Phi)
+				if !ok {
+					break
+				}
+				if !isErrorType(phi.Type()) {
+					continue
+				}
+				for pi, pred := range to.Preds {
+					if pred != from || pi >= len(phi.Edges) {
+						continue
+					}
+					in := phi.Edges[pi]
+					switch {
+					case isNilConst(in):
+						s = s&^errClMask | errNilCl
+					case nonNilError(c, in, 0) || (knownSet(in) != 0 && s&knownSet(in) != 0):
+						s = s&^errClMask | errSetCl
+					case knownNil(in) != 0 && s&knownNil(in) != 0:
+						s = s&^errClMask | errNilCl
+					default:
+						if _, isPhi := in.(*ssa.Phi); !isPhi {
+							s &^= errClMask
+						}
+					}
+				}
+			}
+			// value form of the flag: a phi edge carrying the constant true
+			for _, ins := range to.Instrs {
+				phi, ok := ins.(*ssa.Phi)
+				if !ok {
+					break
+				}
+				if !flag.vals[phi] {
+					continue
+				}
+				for pi, pred := range to.Preds {
+					if pred == from && pi < len(phi.Edges) {
+						if bv, isC := constBool(phi.Edges[pi]); isC && bv {
+							s |= failed
+						}
+					}
+				}
+			}
 			if to == header && from != fn.Blocks[0] && header.Dominates(from) {
-				// back edge: one iteration completed
-				if s&inIter != 0 && s&cntMask != 1 {
-					obl.violate(kOne, from.Instrs[len(from.Instrs)-1].Pos(), fmt.Sprintf("a path through one iteration of the element loop appends %d results: positions of the following results shift (an element is answered twice or not at all)", s&cntMask), pc.Trail())
-				}
-				if s&failed != 0 && s&cont == 0 {
-					oblB.violate(kStop, from.Instrs[len(from.Instrs)-1].Pos(), "the loop goes on to the next element after a failure without having tested continueOnFailure", pc.Trail())
-				}
-				s &^= cntMask | inIter | failed | cont
+				endOfIteration(pc, s, from.Instrs[len(from.Instrs)-1].Pos(), false)
+				s &^= cntMask | inIter | failed | cont | errSeen | errClMask | perValueMask
 			}
 			if from == header && to != header && header.Dominates(to) && len(header.Succs) == 2 && to == header.Succs[0] {
 				s |= inIter
-				s &^= cntMask | failed | cont
+				s &^= cntMask | failed | cont | errSeen | errClMask | perValueMask
 			}
 			return s, true
 		},
@@ -321,18 +457,20 @@ func runC18(c *Ctx) {
 			if !ok || pc.Fn() != fn {
 				return
 			}
-			if loadOfCell(ret.Results[0]) != resCell {
+			if !inSet(res, ret.Results[0]) {
 				obl.violate(kRet, ret.Pos(), "a return of ProcessBulk does not hand out the result slice: the results of the elements already executed are dropped", pc.Trail())
 			}
-			if loadOfCell(ret.Results[1]) != flagCell {
-				oblD.violate("ProcessBulk:returns-the-failure-flag", ret.Pos(), "a return of ProcessBulk does not hand out the failure flag", pc.Trail())
+			if !inSet(flag, ret.Results[1]) {
+				if bv, isC := constBool(ret.Results[1]); !(isC && bv) {
+					oblD.violate("ProcessBulk:returns-the-failure-flag", ret.Pos(), "a return of ProcessBulk does not hand out the failure flag", pc.Trail())
+				}
 			}
-			if s&inIter != 0 && s&cntMask != 1 {
-				obl.violate(kOne, ret.Pos(), fmt.Sprintf("ProcessBulk returns in the middle of an element after appending %d results for it", s&cntMask), pc.Trail())
+			if bv, isC := constBool(ret.Results[1]); isC && bv {
+				s |= failed // value form: `return ret, true, nil`
 			}
+			endOfIteration(pc, s, ret.Pos(), true)
 		},
 	}
-	oblD.expect("ProcessBulk:returns-the-failure-flag", fn.Pos(), "every return hands out the failure flag")
 	c.RunPaths(fn, 0, pr)
 
 	// bulkHandler: 400 whenever the flag may be true
@@ -394,4 +532,55 @@ func runC18(c *Ctx) {
 		},
 	}
 	c.RunPaths(h, 0, hp)
+}
+
+// storedIntoCells: is v stored into one of the cells?
+func storedIntoCells(v ssa.Value, cells map[ssa.Value]bool) bool {
+	for _, r := range *v.Referrers() {
+		if st, ok := r.(*ssa.Store); ok && st.Val == v && cells[cellIdentity(st.Addr)] {
+			return true
+		}
+	}
+	return false
+}
+
+// nonNilError: v is certainly a non-nil error: built by an error constructor, a concrete value boxed into the
+// interface, or the result of a repository function whose every return is such a value.
+func nonNilError(c *Ctx, v ssa.Value, depth int) bool {
+	if depth > 3 || v == nil {
+		return false
+	}
+	switch x := v.(type) {
+	case *ssa.MakeInterface:
+		return true
+	case *ssa.Call:
+		switch calleeFullName(x) {
+		case "fmt.Errorf", "errors.New", "github.com/pkg/errors.New", "github.com/pkg/errors.Errorf":
+			return true
+		}
+		f := staticCallee(x)
+		if f == nil || len(f.Blocks) == 0 || !inRepo(fnPkgPath(f)) {
+			return false
+		}
+		ei := errResultIdx(f.Signature)
+		if ei < 0 || f.Signature.Results().Len() != 1 {
+			return false
+		}
+		for _, b := range f.Blocks {
+			if ret, ok := b.Instrs[len(b.Instrs)-1].(*ssa.Return); ok {
+				if !nonNilError(c, ret.Results[ei], depth+1) {
+					return false
+				}
+			}
+		}
+		return true
+	case *ssa.Phi:
+		for _, e := range x.Edges {
+			if !nonNilError(c, e, depth+1) {
+				return false
+			}
+		}
+		return len(x.Edges) > 0
+	}
+	return false
 }
